@@ -488,4 +488,13 @@ var abbrev = strings.NewReplacer(
 	"github.com/skip-mev/connect/v2/", "connect/",
 )
 
-func shortName(full string) string { return abbrev.Replace(full) }
+// shortName abbreviates package paths.  For methods of this module's own types the
+// receiver's pointer-ness is dropped ("(*opchild/keeper.Keeper).M" = "(opchild/keeper.Keeper).M"):
+// switching a type between value and pointer receivers must not change any name a rule compares.
+func shortName(full string) string {
+	n := abbrev.Replace(full)
+	if strings.HasPrefix(n, "(*ophost") || strings.HasPrefix(n, "(*opchild") {
+		n = "(" + n[2:]
+	}
+	return n
+}
